@@ -9,7 +9,8 @@ import re
 
 def base_programs(rng, n, sources=None):
     out = []
-    sources = sources or ["cmp", "cmp", "cmp", "clone", "ops", "debug", "default", "dropin", "deref"]
+    sources = sources or ["cmp", "cmp", "cmp", "clone", "ops", "debug", "default", "dropin", "deref", "implops"]
+    impl_specs = p_c09.specs_all("thorough")
     subsets = M.closed_subsets()
     deref = p_c18.accept_cases()
     tries = 0
@@ -51,6 +52,14 @@ def base_programs(rng, n, sources=None):
                 continue
             code = p_c12.render(s).replace("'a", "'l")
             traits = s["traits"]
+        elif src == "implops":
+            sp = impl_specs[rng.randrange(len(impl_specs))]
+            if sp["shape"] == "generic_self_where" and sp["lref"] and False:
+                continue
+            code = p_c09.render(sp)
+            code = re.sub(r"\bA\b", "Ty", code)
+            code = re.sub(r"\bO\b", "Ty2", code)
+            traits = [sp["op"]]
         else:
             code, meta = deref[rng.randrange(len(deref))]
             code = code.replace("'a", "'l").replace("inner", "f0")
